@@ -45,6 +45,9 @@ typedef RefCount::Ptr<Pay> PP; typedef RefCount::Ptr<PayD> PD;
 static inline void hold(long id) { if (id) __atomic_fetch_add(&g_holders[id], 1, RLX); }
 static inline void drop(long id) { if (id) __atomic_fetch_sub(&g_holders[id], 1, RLX); }
 
+// between cases no payload is alive: recycle the ids so that long runs stay inside the ledger arrays
+static void recycleIds() { long n = g_nextPay; if (n > MAXPAY) n = MAXPAY; for (long i = 0; i < n; ++i) { g_holders[i] = 0; g_dtor[i] = 0; } g_nextPay = 1; }
+
 static void checkPtr(const PP& p, long want, const char* what) {
   if (!want) { if (p) fail("RefCount.Ptr/handle-content", "%s: handle should be empty", what); return; }
   if (!p) fail("RefCount.Ptr/handle-content", "%s: handle is empty, should refer to payload %ld", what, want);
@@ -88,6 +91,7 @@ static void ptrSeq() {
     delete[] hb; delete[] hd;
     if (g_created - created0 != g_destroyed - destroyed0) fail("RefCount.Ptr/payload-not-released-after-last-handle", "%ld payloads created, %ld destroyed after all handles are gone", g_created - created0, g_destroyed - destroyed0);
     if (idx % 499 == 0) sample("%.700s", hist.c());
+    recycleIds();
     endCase(fp, shared && released);
   }
 }
@@ -234,6 +238,7 @@ static void conc() {
 #endif
     cnt("ops", ops); cnt("ops_begun_while_string_payload_shared", shared); cnt("in_place_modifications", mods); cnt("mailbox_exchanges", mail); cnt("threads", T); if (pin >= 0) cnt("runs_pinned_to_one_cpu");
     if (idx % 97 == 0) sample("%s ops=%ld", hist.c(), ops);
+    recycleIds();
     endCase(mix((u64)idx, (u64)ops), T >= 2 && ops >= 400);
   }
 }
